@@ -148,6 +148,14 @@ func (c *Ctx) ghostInit(st *State, r string, t types.Type) {
 			set("content", "Bytes", "uf$emptyBytes")
 			return
 		}
+		if n, ok := t.(*types.Named); ok && n.Obj().Pkg() != nil && n.Obj().Pkg().Path() == "strings" && n.Obj().Name() == "Builder" {
+			// a new strings.Builder holds the empty string
+			if _, ok := c.W.Specs.Ghosts["bstr"]; ok {
+				h := c.ghostHeap("bstr", "Str")
+				c.heapSet(st, h, "(store "+c.heapGet(st, h, c.heapSort[h])+" "+r+" "+c.strLit("")+")")
+			}
+			return
+		}
 		for i := 0; i < s.NumFields(); i++ {
 			if isStruct(s.Field(i).Type()) {
 				c.ghostInit(st, c.subRef(t, i, r), s.Field(i).Type())
